@@ -5,7 +5,7 @@ CONSTANTS
   Lockouts = {1, 2}
   DefaultLimit = 2
   DefaultLockout = 2
-  MaxClock = 5
+  MaxClock = 4
   MaxStreak = 3
   MaxReconf = 1
   Impl = "latelock"
